@@ -1,7 +1,7 @@
 import Snel.Model.Proto
 import Snel.Model.Shard
 /-! Line protocol for shard-machine histories (shared by the C01/C03/C04/C05/C11 drivers):
-`sys cap=<n> k=<n> t=<ntypes> | S k ctx ty | F | ADV | RUN | R | X | D | C | LS`; the answer is the
+`sys cap=<n> k=<n> t=<ntypes> | S k ctx ty | F | ADV | RUN | R | X | XM | D | C | LS`; the answer is the
 `;`-joined list of observations (`R` and `LS`). -/
 namespace Snel.ShardProto
 open Snel.Shard Snel.Proto
@@ -11,6 +11,7 @@ inductive Tok where
   | read
   | ls
   | compact
+  | killMid
   deriving Repr
 
 def parseTok (t : String) : Option Tok :=
@@ -20,6 +21,7 @@ def parseTok (t : String) : Option Tok :=
   | ["ADV"] => some (.op .flushStep)
   | ["RUN"] => some (.op .drain)
   | ["X"] => some (.op .crash)
+  | ["XM"] => some .killMid
   | ["D"] => some (.op .shutdown)
   | ["R"] => some .read
   | ["LS"] => some .ls
@@ -40,6 +42,7 @@ def racy (s : Shard) (ntypes : Nat) : Bool :=
     !s.jobs.isEmpty && !s.segs.isEmpty
 
 def showRead (s : Shard) (ntypes : Nat) : String :=
+  if s.poisoned then "poisoned" else
   if racy s ntypes then "racy" else
   if s.tainted then "stale" else
   s!"keys={joinNat (sortNat (visibleKeys s))} count={countAllTypes s ntypes}"
@@ -74,6 +77,7 @@ def answerWith (compactFn : Shard → Shard) (line : String) : String :=
           | .op o => (step s o, obs)
           | .read => (s, showRead s nt :: obs)
           | .ls => (s, showLs s nt :: obs)
+          | .killMid => (crashMid s, obs)
           | .compact => (compactFn (drainAll s), obs)) (Shard.init cap km, [])
         " ; ".intercalate obs.reverse
       | _, _, _, _ => "bad-op"
